@@ -122,6 +122,11 @@ class C02(Prop):
                     out.append(V("C02.request-not-sent", "%s: %s" % (op["op"], res.get("exc"))))
                     continue
                 kind, label, _ = oracle.exchange_verdict(run, 0, exs[0])
+                if kind == oracle.UNKNOWN or (kind == "TIMEOUT" and not exs[0]["rx"]):
+                    # no prediction (a reply larger than the receive buffer may be cut by the kernel),
+                    # or nothing reached the socket at all (a minimised plan without its reply)
+                    run.sim.count("probe.no-prediction")
+                    continue
                 if kind != MATCH:
                     out.append(V("C02.reply-not-delivered", "well-formed %s reply ended as %s: %s" % (op["op"], kind, res.get("exc", {}).get("msg"))))
                     continue
@@ -135,6 +140,9 @@ class C02(Prop):
             elif op["op"] == "walk":
                 if "exc" in res:
                     out.append(V("C02.walk-raised", res["exc"]["exc"]))
+                    continue
+                if any(run.dgrams[d]["label"].get("why") == "larger-than-receive-buffer" for ex in run.exchanges(res) for d in ex["rx"]):
+                    run.sim.count("probe.no-prediction")
                     continue
                 base = ber.parse_oid_text(op["oid"])
                 rows = Mib(run.plan["agent"]["mib"]).below(base, (lambda v: v[0] == "counter64") if sess["version"] == "v1" else None)
